@@ -56,6 +56,8 @@ Expected(x, r) ==
     [] r.act = "LeaveLeft"     -> [en |-> LeaveLeftEn(x, r.n),     nx |-> LeaveLeftF(x, r.n)]
     [] r.act = "LeaveRelease"  -> [en |-> LeaveReleaseEn(x, r.n),  nx |-> LeaveReleaseF(x, r.n, FALSE)]
     [] r.act = "Stabilize"     -> [en |-> TRUE, nx |-> StabilizeF(x, r.n)]
+    [] r.act = "StabRead"      -> [en |-> StabReadEn(x, r.n), nx |-> StabReadF(x, r.n)]
+    [] r.act = "StabWrite"     -> [en |-> StabWriteEn(x, r.n), nx |-> StabWriteF(x, r.n)]
     [] r.act = "CheckPred"     -> [en |-> TRUE, nx |-> CheckPredF(x, r.n)]
     [] r.act = "Stutter"       -> [en |-> TRUE, nx |-> x]
     [] OTHER                   -> [en |-> FALSE, nx |-> x]
